@@ -10,8 +10,9 @@ from collections import Counter
 from . import env, findings
 
 ROOT = os.path.dirname(os.path.dirname(os.path.abspath(__file__)))
-EVID = os.path.join(ROOT, 'evidence')
-REPLAYS = os.path.join(ROOT, 'replays')
+OUT = os.environ.get('PKMC_OUT', ROOT)
+EVID = os.path.join(OUT, 'evidence')
+REPLAYS = os.path.join(OUT, 'replays')
 
 _MOD = None
 
